@@ -1,7 +1,7 @@
 """C13 - editing a model invalidates everything derived from the old model.
 
 Small-scope exhaustive histories: ALL operation sequences up to a length bound
-over an alphabet of 19 operations chosen to cross every cache boundary
+over an alphabet of 22 operations chosen to cross every cache boundary
 (LP objective <-> quadratic objective, flip sense, add linear / nonlinear
 constraint, add a list of constraints introducing a new variable, tighten /
 change a bound, solve with auto / SLSQP / trust-constr / linprog / BFGS (a method that ignores bounds), read
@@ -81,9 +81,21 @@ BASES = {
         "bvar": "x[0]",
     },
 }
+BASES["degenerate-lp"] = {
+    # a linear model whose optimal set is a whole face (min a + b s.t. a + b >= 4) or which is unbounded under "max-lin":
+    # which point / status is reported depends on the route, so a stale routing decision shows
+    "decls": [{"k": "var", "name": "a", "lb": 1.0, "ub": 6.0}, {"k": "var", "name": "b", "lb": 0.0}, {"k": "var", "name": "c", "lb": 0.0, "ub": 2.0}],
+    "lin": add(a_, b_),
+    "quad": add(sq(["bin", "-", a_, ["raw", 2.0, "float"]]), sq(["bin", "-", b_, ["raw", 1.0, "float"]])),
+    "max": ["bin", "-", add(a_, b_), mul(0.5, sq(b_))],
+    "c_lin": ["rel", ">=", add(a_, b_), ["raw", 4.0, "float"], "direct"],
+    "c_list": [["rel", "<=", add(a_, c_), ["raw", 7.0, "float"], "direct"], ["rel", ">=", add(b_, c_), ["raw", 0.5, "float"], "direct"]],
+    "c_nl": ["rel", "<=", add(sq(a_), sq(b_)), ["raw", 40.0, "float"], "direct"],
+    "bvar": "a",
+}
 OPS = ["min-lin", "min-quad", "min-small", "max", "max-lin", "flip-same-object", "add-lin", "add-list", "add-nl", "add-mixed-list", "add-list-with-invalid-entry", "tighten", "rebound", "solve-auto", "solve-SLSQP",
-       "solve-trust-constr", "solve-linprog", "solve-BFGS", "read"]
-OBS = {"solve-auto", "solve-SLSQP", "solve-trust-constr", "solve-linprog", "solve-BFGS", "read"}
+       "solve-trust-constr", "solve-linprog", "solve-BFGS", "solve-Nelder-Mead", "solve-COBYLA", "noop", "read"]
+OBS = {"solve-auto", "solve-SLSQP", "solve-trust-constr", "solve-linprog", "solve-BFGS", "solve-Nelder-Mead", "solve-COBYLA", "read"}
 
 
 def info(tier):
@@ -93,7 +105,7 @@ def info(tier):
         "exhaustive": True,
         "rule": "all %d operation sequences of length <= %d over %d operations x 3 base models (the last operation of each sequence "
         "ending in an observation is compared with the twin; prefixes are covered by the shorter sequences); the complete "
-        "family 'objective ; [constraint] ; solve m1 ; edit ; observe' (4x3x5x10x6 per base model; quick runs one quarter of it "
+        "family 'objective ; [constraint] ; solve m1 ; edit ; observe' (4x3x5x10x6 per base model; quick runs one sixteenth of it per seed, plus the directed two-solve crossings below in full "
         "per seed); random histories of length <= 40 with every observation compared; distinct = distinct (base, sequence) pairs"
         % (n, MAXLEN[tier], len(OPS)),
         "required_cells": [f"base:{b}" for b in BASES] + [f"last:{o}" for o in OPS if o in OBS] + [f"op:{o}" for o in OPS],
@@ -169,6 +181,8 @@ def apply(op, M, P, b):
             M.constraints.append(base["c_lin"])
         elif len(P.constraints) != before:
             raise RuntimeError("unexpected number of constraints after a failed subject_to")
+    elif op == "noop":
+        pass  # nothing is edited: two observations in a row (solve m1 ; solve m2) must each equal the fresh problem's
     elif op == "add-nl":
         M.constraints.append(base["c_nl"])
         P.subject_to(b.rel(base["c_nl"]))
@@ -187,7 +201,7 @@ def observe_real(op, P):
     if op == "read":
         return {"variables": [v.name for v in P.variables], "n": P.n_variables, "bounds": [list(t) for t in P.get_bounds()]}
     method = op[len("solve-"):]
-    kw = {"maxiter": 300} if method == "trust-constr" else {}
+    kw = {"maxiter": 300} if method == "trust-constr" else ({"maxiter": 150} if method in ("Nelder-Mead", "COBYLA") else {})
     try:
         with warnings.catch_warnings():
             warnings.simplefilter("ignore")
@@ -208,7 +222,7 @@ def observe_twin(op, M, twin):
     else:
         method = op[len("solve-"):]
         job["method"] = method
-        job["kwargs"] = {"maxiter": 300} if method == "trust-constr" else {}
+        job["kwargs"] = {"maxiter": 300} if method == "trust-constr" else ({"maxiter": 150} if method in ("Nelder-Mead", "COBYLA") else {})
     return twin.call(job)
 
 
@@ -320,6 +334,20 @@ def run(ctx, rec):
                     run_sequence(rec, base, list(seq), twin)
                     if rec.inconclusive:
                         return
+        # directed: two observations in a row on one problem object (no edit in between), the first by any kind of method -
+        # derivative-free, gradient-based, LP - the second by another kind
+        for base in BASES:
+            for obj in ("min-lin", "max-lin", "max", "min-quad"):
+                for m1 in ("solve-Nelder-Mead", "solve-COBYLA", "solve-SLSQP", "solve-auto", "solve-linprog"):
+                    for last in ("solve-auto", "solve-SLSQP", "solve-trust-constr"):
+                        i += 1
+                        if not ctx.mine(i):
+                            continue
+                        if rec.out_of_time():
+                            rec.inconclusive.append("time budget reached before the two-solve crossings were finished")
+                            return
+                        run_sequence(rec, base, [obj, "add-lin", m1, "noop", last], twin)
+                        rec.cmp(1, "history:two-solves-without-an-edit")
         # cache-boundary crossings (length 4-5): objective ; [constraint] ; solve m1 ; edit ; observe
         edits = [o for o in OPS if o not in OBS]
         solves = [o for o in OPS if o.startswith("solve")]
@@ -332,7 +360,7 @@ def run(ctx, rec):
                                 i += 1
                                 if not ctx.mine(i):
                                     continue
-                                if ctx.tier == "quick" and (i // 16) % 4 != ctx.seed % 4:
+                                if ctx.tier == "quick" and (i // 16) % 16 != ctx.seed % 16:
                                     continue  # quick: one third of the crossing family per seed
                                 if rec.out_of_time():
                                     rec.inconclusive.append("time budget reached before the crossing family was finished")
